@@ -637,6 +637,8 @@ func TestC06Bystander(t *testing.T) {
 		option := rapid.IntRange(0, 2).Draw(rt, "option")
 		wait := rapid.SampledFrom([]time.Duration{2 * time.Second, 11 * time.Second, 25 * time.Second, 6 * time.Minute}).Draw(rt, "wait")
 		vipFirst := rapid.Bool().Draw(rt, "vipConnectsFirst")
+		// the protected user's address: the kicked user's own, or another one that merely begins or ends with the same text
+		vipAddr := rapid.SampledFrom([]string{"10.6.4.9", "10.6.4.91", "10.6.4.9", "110.6.4.9", "10.6.4.90"}).Draw(rt, "vipAddress")
 		prot := hlref.AccessOf(hlref.PrivCannotBeDiscon, hlref.PrivReadChat)
 		opt := hlsim.Options{Agreement: "a", Keepalive: true, Accounts: []hlsim.AccountSpec{acct("admin", "Admin", "adminpw", hlref.AccessOf(hlref.PrivDisconUser)), acct("plain", "Plain", "ppw", hlref.AccessOf(hlref.PrivReadChat)), {Login: "vip", Name: "Vip", Password: "vpw", Access: prot}}}
 		inWorld(rt, opt, func(rt *rapid.T, w *hlsim.World) {
@@ -644,11 +646,11 @@ func TestC06Bystander(t *testing.T) {
 			var vip, victim *hlsim.Conn
 			vid := 3
 			if vipFirst {
-				vip = loginAs(rt, w, "10.6.4.9:1001", "vip", "vpw", "vip")
+				vip = loginAs(rt, w, vipAddr+":1001", "vip", "vpw", "vip")
 				victim = loginAs(rt, w, "10.6.4.9:1002", "plain", "ppw", "victim")
 			} else {
 				victim = loginAs(rt, w, "10.6.4.9:1002", "plain", "ppw", "victim")
-				vip = loginAs(rt, w, "10.6.4.9:1001", "vip", "vpw", "vip")
+				vip = loginAs(rt, w, vipAddr+":1001", "vip", "vpw", "vip")
 				vid = 2
 			}
 			fs := []hlref.Field{fld(hlref.FUserID, hlref.BE16(vid))}
@@ -667,6 +669,15 @@ func TestC06Bystander(t *testing.T) {
 			}
 			if r := vip.Request(hlref.TranKeepAlive); !okReply(r) {
 				rt.Fatalf("the protected user, connected from the same address as a user who was kicked (option %d), is no longer served after %s", option, wait)
+			}
+			if vipAddr != "10.6.4.9" {
+				// its own address was never banned: the protected user can come and go as before
+				vip.Close()
+				settle(time.Second)
+				c := w.Connect(vipAddr + ":1003")
+				if r := c.Login(hlsim.LoginOpts{Login: "vip", Password: "vpw", Name: []byte("vip again"), Icon: 1}); r == nil || r.Err != 0 {
+					rt.Fatalf("after a user at 10.6.4.9 was kicked (option %d), the protected user at %s - never kicked, never banned - cannot log in again: %s", option, vipAddr, replySummary(r))
+				}
 			}
 		})
 		ev.Case(evid.Hash("bystander", option, wait, vipFirst), option != 0, "bystander")
